@@ -39,7 +39,9 @@ def gen_cases(tier, seed):
                     L = float(rng.uniform(3.0, 7.0))
                     t0 = float(rng.uniform(-4, 4))
                     nev = int(rng.integers(1, 7))
-                    cases.append(dict(kind="random", method=name, direction=d, dense=dense, t0=t0, tf=t0 + d * L, nsteps=float(rng.uniform(25, 70)),
+                    rdt = rng.random()
+                    dtn = "float64" if rdt < 0.7 else ("float32" if rdt < 0.85 or not info["explicit"] else "longdouble")
+                    cases.append(dict(kind="random", method=name, direction=d, dense=dense, t0=t0, tf=t0 + d * L, nsteps=float(rng.uniform(25, 70)), dtype=dtn,
                                       nev=nev, pseed=int(rng.integers(1 << 30)), cost=(2 if info["explicit"] else 14) * (1 + nev / 3.0)))
     # crossings exactly on step boundaries: fixed-step runs on a binary grid with time events at grid points
     for name in (["RK4Solver", "EulerSolver", "ABAs5o6HSolver", "MidpointSolver"] if tier == "quick" else [n for n in M if M[n]["explicit"] and not M[n]["adaptive"]]):
@@ -66,6 +68,7 @@ def gen_cases(tier, seed):
                     t0 = float(rng.uniform(-4, 4))
                     cases.append(dict(kind="terminal_mix", method=name, direction=d, dense=dense, t0=t0, tf=t0 + d * float(rng.uniform(3.0, 6.0)),
                                       nsteps=float(rng.uniform(12, 30)), nev=int(rng.integers(3, 7)), pseed=int(rng.integers(1 << 30)),
+                                      dtype=str(rng.choice(["float64", "float64", "float64", "float32"] + (["longdouble"] if M[name]["explicit"] else []))),
                                       cost=(3 if M[name]["explicit"] else 12)))
     return cases
 
@@ -120,7 +123,8 @@ def run_case(spec):
     dim = 2 if not info["splitting"] else 2
     prob = Manufactured(dim, spec["pseed"], direction=d, freq=(1.0, 3.0))
     rng = rng_for(802, spec["pseed"])
-    dt_ = np.dtype("float64")
+    from vf.problems import dtype_of
+    dt_ = dtype_of(spec.get("dtype", "float64"))
     eps = float(np.finfo(dt_).eps)
     evspecs = []
     ref_rows = None
@@ -162,7 +166,11 @@ def run_case(spec):
     decs = sorted(set(int(np.floor(np.log10(abs(e.s)))) for e in events))
     rec = util.Rec(sig="%s|%d|%s|%s|%d|%d" % (spec["method"], d, spec["dense"], decs, len(events), spec["pseed"] % 11))
     feats = {"method": spec["method"], "family": info["family"], "direction": d, "dense": bool(spec["dense"]), "case_kind": spec["kind"]}
-    system = sysrun.make_system(f, y0, t0, tf, L / spec["nsteps"], info["cls"], dense=spec["dense"], rtol=1e-6, atol=1e-8)
+    if spec.get("dtype", "float64") != "float64":
+        feats["dtype"] = spec["dtype"]
+        rec.bump("runs_in_" + spec["dtype"])
+    tolkw = dict(rtol=1e-6, atol=1e-8) if spec.get("dtype", "float64") != "float32" else dict(rtol=1e-3, atol=1e-4)
+    system = sysrun.make_system(f, y0, t0, tf, dt_.type(L / spec["nsteps"]), info["cls"], dense=spec["dense"], **tolkw)
     trace = DetectionTrace()
     try:
         seg = sysrun.call_integrate(system, events=events, max_steps=20000)
